@@ -123,6 +123,9 @@ func (m *memManager) UploadStatus(s []usermanager.StatusUpdate) ([]usermanager.S
 		if u.upCredit <= 0 || u.downCredit <= 0 {
 			out = append(out, usermanager.StatusResponse{UID: st.UID, Action: usermanager.TERMINATE, Message: "no credit"})
 		}
+		if m.now().Unix() > u.expiry {
+			out = append(out, usermanager.StatusResponse{UID: st.UID, Action: usermanager.TERMINATE, Message: "expired"})
+		}
 	}
 	return out, nil
 }
